@@ -97,7 +97,7 @@ func init() {
 		Level:  "exploration",
 		Rule: "E1 + depth-bounded E2: (of) every subset of the 11 boundary positions {0,1,62,63,64,65,127,128,129,191,192} × n in {absent,-5,0,1,63,64,65,128,129,193,300}, and EVERY n in [-1100, 1100] plus far negative ones with the empty list and five short lists: word count and exact bit set of Of, ToArray(Of(l)) = l, Of(ToArray(b)) = b up to trailing zero words, and Get/Get1 inside plus SafeGet/SafeGet1 at every probe in [-70, 64·words+70); " +
 			"(of, far) every subset of {0,63,64,4095,4096,4097,65535,65536,2^20-1,2^20} × 6 sizes with probes around every position and end; (ofmany) every sequence of ≤3 segments (positions ⊂ {0,1,63,64,65}, size in {0,1,63,64,65,130}; positions ≥ size included, so the shifted concatenation need not be ascending) whose shifted bits all fit into the word count the statement gives, against the set model and that word count; " +
-			"(dense) ToArray, Of(ToArray(b)) and Get / Get1 / SafeGet / SafeGet1 at every position on every bitmap of ≤4 words over the 12-word core alphabet and ≤2 words with one wide word (dense bitmaps: all-ones words and runs of them), and on long dense bitmaps of every length 5..300 words and every threshold length to 1100 words × 4 patterns (position lists of up to 70400 entries); (ofmany, many segments) OfMany on every threshold number of segments (round numbers ±1) from 1000 to 70000; (giant, 64-bit builds) the top of the int32 position range: Of on 12 (positions, n) combinations whose last bit or size lies within 65 of MaxInt32 (bitmaps of 2^25-1 and 2^25 words), with ToArray on two of them, Get/SafeGet probes next to every bit and SafeGet at MinInt32, and OfMany / a Builder whose running offset ends 50 below MaxInt32; reference arithmetic in int64; " +
+			"(dense) ToArray, Of(ToArray(b)) and Get / Get1 / SafeGet / SafeGet1 at every position on every bitmap of ≤4 words over the 12-word core alphabet and ≤2 words with one wide word (dense bitmaps: all-ones words and runs of them), on ~9000 single words by POPULATION CLASS (every word with one or two 0-bits, three over 16 boundary positions, 0-runs cut at 4 or 6 of 12 boundaries, complements, 6 words of every popcount 0..64) alone, behind an all-ones word and in front of a sparse one, and on long dense bitmaps of every length 5..300 words and every threshold length to 1100 words × 4 patterns (position lists of up to 70400 entries); (ofmany, many segments) OfMany on every threshold number of segments (round numbers ±1) from 1000 to 70000; (giant, 64-bit builds) the top of the int32 position range: Of on 12 (positions, n) combinations whose last bit or size lies within 65 of MaxInt32 (bitmaps of 2^25-1 and 2^25 words), with ToArray on two of them, Get/SafeGet probes next to every bit and SafeGet at MinInt32, and OfMany / a Builder whose running offset ends 50 below MaxInt32; reference arithmetic in int64; " +
 			"(builder) every sequence of ≤3 operations over the 234-operation alphabet (and every sequence of 4..R operations over a 10-operation sub-alphabet) {Extend(those 192 segments, the 6 without positions in each of 4 forms: nil, non-nil, with dirty spare capacity, empty tail of a longer array), Set(pos in {0,1,63,64,65,200}, value in 0..3)} executed on a real Builder from NewBuilder(0) and NewBuilder(256) (depth ≤2 also from NewBuilder(64) and NewBuilder(130)), with a second Builder extended and set between the steps (objects must not share state): set bits, Offset, capacity for every bit, and exact equality with the reference Of for Extend-only histories with ascending positions. A case is one call / one history; non-trivial when at least one bit is set.",
 		Assumptions: []string{"positions beyond 300 and longer histories are not enumerated; non-ascending lists are outside Of's and OfMany's statement"},
 		Run:         c12Run,
@@ -706,6 +706,24 @@ func c12Run(c *mc.Ctx) {
 			c.Count(n, n)
 			c.Add("dense_bitmaps", n)
 		})
+		// POPULATION CLASSES of one word (a ToArray that treats sparse, ordinary and dense words differently):
+		// every word with one, two or (over 16 boundary positions) three 0-bits, every word whose 1-runs
+		// and 0-runs are cut at 4 or 6 of 12 boundary positions, the complement of each, and 6 words of
+		// every popcount 0..64 - alone, behind an all-ones word and in front of a sparse one
+		{
+			pw := c12PopWords()
+			c.Expect(int64(3 * len(pw)))
+			c.Par(len(pw), func(i int) {
+				for v, w := range [][]uint64{{pw[i]}, {^uint64(0), pw[i]}, {pw[i], 1 << 40}} {
+					cs := c12Case{Words: append(gen.Words(nil), w...)}
+					if g, wnt := c12Judge("ToArrayDense", cs); g != wnt {
+						c.Fail(14<<50|int64(i)<<2|int64(v), "ToArrayDense", "ToArray/population-classes", cs, g, wnt)
+					}
+				}
+				c.Count(3, 3)
+				c.Add("population_class_bitmaps", 3)
+			})
+		}
 		// LONG dense bitmaps: every length 5..300 words and every threshold length up to 1100 words × 4
 		// patterns (all ones; AA../55../0 cycling; one word at the end; pseudo-random): position lists of
 		// up to 70400 entries through ToArray and back through Of
@@ -916,6 +934,92 @@ func c12Run(c *mc.Ctx) {
 // ---- the top of the int32 position range (64-bit builds): bitmaps of up to 2^25 words
 
 // c12SparseBits lists the set bits of a long, mostly empty bitmap (int64 positions).
+// c12PopWords: single words by population class and run structure (see the dense family).
+func c12PopWords() []uint64 {
+	seen := map[uint64]bool{}
+	var out []uint64
+	add := func(w uint64) {
+		for _, x := range []uint64{w, ^w} {
+			if !seen[x] {
+				seen[x] = true
+				out = append(out, x)
+			}
+		}
+	}
+	for a := 0; a < 64; a++ {
+		add(^(uint64(1) << uint(a)))
+		for b := a + 1; b < 64; b++ {
+			add(^(uint64(1)<<uint(a) | uint64(1)<<uint(b)))
+		}
+	}
+	bp := []int{0, 1, 2, 7, 8, 15, 16, 31, 32, 33, 47, 48, 55, 56, 62, 63}
+	for i := range bp {
+		for j := i + 1; j < len(bp); j++ {
+			for k := j + 1; k < len(bp); k++ {
+				add(^(uint64(1)<<uint(bp[i]) | uint64(1)<<uint(bp[j]) | uint64(1)<<uint(bp[k])))
+			}
+		}
+	}
+	// runs cut at 4 or 6 of 12 boundaries: bits [c0,c1) and [c2,c3) (and [c4,c5)) are 0, the rest 1
+	cuts := []int{0, 1, 5, 8, 16, 31, 32, 33, 40, 48, 63, 64}
+	run := func(lo, hi int) uint64 {
+		var m uint64
+		for i := lo; i < hi; i++ {
+			m |= 1 << uint(i)
+		}
+		return m
+	}
+	var rec func(start int, chosen []int, k int)
+	rec = func(start int, chosen []int, k int) {
+		if len(chosen) == k {
+			var z uint64
+			for i := 0; i < k; i += 2 {
+				z |= run(chosen[i], chosen[i+1])
+			}
+			add(^z)
+			return
+		}
+		for i := start; i < len(cuts); i++ {
+			rec(i+1, append(chosen, cuts[i]), k)
+		}
+	}
+	rec(0, nil, 4)
+	rec(0, nil, 6)
+	// 6 words of every popcount
+	x := uint64(0x9e3779b97f4a7c15)
+	for p := 0; p <= 64; p++ {
+		add(run(0, p))
+		add(run(64-p, 64))
+		var sp uint64 // spread evenly
+		for i := 0; i < p; i++ {
+			sp |= 1 << uint(i*64/maxInt(p, 1))
+		}
+		add(sp)
+		for r := 0; r < 3; r++ { // pseudo-random: set p distinct bits
+			var w uint64
+			for n := 0; n < p; {
+				x ^= x << 13
+				x ^= x >> 7
+				x ^= x << 17
+				b := uint(x % 64)
+				if w>>b&1 == 0 {
+					w |= 1 << b
+					n++
+				}
+			}
+			add(w)
+		}
+	}
+	return out
+}
+
+func maxInt(a, b int) int {
+	if a > b {
+		return a
+	}
+	return b
+}
+
 func c12SparseBits(w []uint64) []int64 {
 	var out []int64
 	for i, x := range w {
